@@ -428,6 +428,42 @@ def closing_fails_a_waiting_request(c, state):
     assert fut.state == (CANCELLED if state == PENDING else state)
 
 
+
+class FakeDisconnect:
+    """Disconnect(...).request() by contract: records what the connection looks like at the moment the exchange
+    starts (the exchange takes up to its timeout); may fail with RequestResponseError."""
+
+    def __init__(self, transport, communication_channel_id, local_hpai):
+        self.channel = communication_channel_id
+
+    async def request(self):
+        c = ghost("conn")[-1]
+        ghost("T").append(("disconnect_exchange", self.channel, c._pending.state if c._pending is not None else None, c.communication_channel))
+        if nondet(2):
+            raise RequestResponseError("no DisconnectResponse")
+
+
+@lemma("C32", params=dict(c=TCP, state=Choice(None, PENDING, RESULT, CANCELLED)), stubs=[(dmc, "Disconnect", FakeDisconnect)])
+def disconnect_fails_a_waiting_request_before_the_disconnect_exchange(c, state):
+    """disconnect() (called by the user and by a failed heartbeat): a waiting request is failed *before* the
+    Disconnect exchange starts - promptly, not after the server answered or the exchange timed out - and at that
+    moment the connection already reads closed; the exchange names the channel the connection had; the transport
+    is stopped last, whatever the exchange does."""
+    ghost("conn").append(c)
+    fut = Fut(state) if state is not None else None
+    c._pending = fut
+    ch = c.communication_channel
+    run(c.disconnect())
+    tr = ghost("T")
+    assert c.communication_channel is None and tr[-1] == "transport_stop"
+    if fut is not None:
+        assert fut.state == (CANCELLED if state == PENDING else state)
+    ex = [x for x in tr if isinstance(x, tuple) and x[0] == "disconnect_exchange"]
+    if ch is None:
+        assert ex == []
+    else:
+        assert ex == [("disconnect_exchange", ch, None if fut is None else (CANCELLED if state == PENDING else state), None)]
+
 ASSUMPTIONS = [
     "asyncio is trusted behind the contract stubs: a cancelled task/future does not continue, asyncio.timeout cancels what it guards, locks are mutually exclusive, queues are FIFO, tasks switch only at awaits; interleavings inside one await are represented by 'the awaited object completes with any admissible value, times out, or the connection closes'",
     "CEMIMPropReadResponse always carries at least one data octet (parser invariant)",
